@@ -305,7 +305,7 @@ def trim_report(text, limit=60):
 class Prop:
     id = "C08"
     lean_module = "MuduoVerif.Props.C08"
-    gen_engines = ["Race"]
+    gen_engines = ["Race", "OwnerSkel"]   # OwnerSkel: statement order of TcpServer::newConnection (set-up setters before the hand-over)
     drivers = ["race"]
     technique = ("Lean 4 lockset-soundness theorem over all traces + per-run `decide` of the member-access table generated "
                  "from the clang AST against a hand-written synchronisation policy; validation by ThreadSanitizer scenarios "
@@ -338,6 +338,10 @@ class Prop:
         "vlib/gen/race.py (clang-14 JSON AST -> Generated/Race.lean): member accesses of `this`, lock scopes, dominating owner checks, "
         "atomic classification; cross-checked on every run by an independent token scan of the sources",
         "the hand-written policy and the lists of Model/Race.lean (policies, safeCallees, requiredRoots, requiredConfined)",
+        "vlib/gen/ownerskel.py (clang-14 JSON AST -> Generated/OwnerSkel.lean: statement skeleton of TcpServer::newConnection) for setup_before_handover: the "
+        "exemption of TcpConnection's set-up setters ('called before the object is shared') is a theorem for the library's own cross-thread caller - all four "
+        "setters precede the single hand-over of connectEstablished to the io loop and nothing touches the connection after it; a concrete schedule for a "
+        "violation of that order is produced by C02's Owner engine (`holdHandover`), not by the TSan scenarios here (the window is a few instructions wide)",
         "contexts are truthful: a MutexLockGuard in scope means the mutex is held (Mutex.h); assertInLoopThread()/isInLoopThread() "
         "compare with the thread that constructed the loop; channel/timer/functor callbacks run on the loop thread (Channel, "
         "TimerQueue, doPendingFunctors)",
@@ -345,7 +349,8 @@ class Prop:
     ]
     assumptions = [
         "configuration methods documented as not thread safe (set*Callback, setThreadNum, setContext, Logger::setLogLevel/setOutput/...) "
-        "are called before the object is shared",
+        "are called before the object is shared (by USER code: for TcpServer::newConnection, the library's own caller of TcpConnection's setters, this is "
+        "the theorem setup_before_handover)",
         "single-owner API (EventLoopThread::startLoop, ThreadPool::start/stop, AsyncLogging::start/stop) is called by the owning thread",
         "objects outlive the calls made on them (destruction is C02/C05/C12); TcpServer::start's first call is made on the loop thread "
         "(it reaches the loop-confined EventLoopThreadPool::start and aborts elsewhere - observed by an abort child)",
@@ -848,7 +853,30 @@ class Prop:
                 print("(not a replayable line) " + l)
 
     # ------------------------------------------------------------------ entry point
+    def _owner_schedules(self, ctx, replay):
+        """oracle-only run (no model: drv_owner is not one of this property's drivers) of the deterministic hand-over
+        schedules of the Owner engine (vlib/owner_common.py, harness/owner_drv.cc: the acceptor thread parked right after
+        TcpServer::newConnection handed the connection to its io loop, the io loop running meanwhile).  Only in search
+        mode, i.e. when an obligation of this property broke (setup_before_handover is the one these schedules make
+        concrete: a setter called after the hand-over is a write the io thread can overtake), or to re-run such a replay."""
+        from .. import owner_common
+        saved, ctx.model_ok = ctx.model_ok, False
+        try:
+            if replay:
+                owner_common.replay(ctx, self.id, replay)
+            else:
+                owner_common.explore_corpus(ctx, self.id)
+        finally:
+            ctx.model_ok = saved
+
     def correspondence(self, ctx, replay=None):
+        from .. import owner_common
+        if replay and owner_common.is_owner_replay(replay):
+            return self._owner_schedules(ctx, replay)
+        if not replay and ctx.search_mode:
+            self._owner_schedules(ctx, None)
+            if ctx.stop():
+                return
         # observations that match a known finding must not end the exploration (ctx.stop()): they are handed to the
         # runner at the end, which prints KNOWN-FINDING for a matching signature and VIOLATION otherwise
         self._deferred = []
